@@ -11,9 +11,12 @@
 //   block BlockStringWriter concatenation
 //   alias raw blocks / by-reference values stored inside the writer being appended to, x capacity histories (enumerated)
 //   own   reader constructors; shared_ptr one with the caller's reference dropped before reading (enumerated)
+//   huge  every positional / cursor accessor family at offsets, cursors and sizes beyond 2^31 / 2^32 bytes (2^31..2^35+ bits)
+//         over sparse 6 GiB mappings (c01_huge.hh); runs on shards 0 (readers) and 1 (BufferWriter, > 4 GiB transfers) only
 // --arg alias_pput=1 additionally drives pput<T>(off, reference into own buffer) with growth (see notes/c01.md)
 #include "c01_alias.hh"
 #include "c01_bits.hh"
+#include "c01_huge.hh"
 #include "c01_oracle.hh"
 #include "c01_script.hh"
 #include "c01_tables.hh"
@@ -205,6 +208,7 @@ int main(int argc, char** argv) {
       if (on("x16")) part_x16();
       if (on("x24")) part_x24();
       if (on("r48")) part_r48(g);
+      if (on("huge")) huge::part_huge();
     } catch (const std::exception& e) {
       c.violation(std::string(g_op) + ":unexpected-exception", "an in-range operation threw", vf::fmt("during %s: %s", g_op, e.what()));
     }
